@@ -19,15 +19,21 @@ WT=/root/mv-$ID
 rm -rf "$WT"; git -C $REPO worktree prune
 git -C $REPO worktree add -q --detach "$WT" HEAD || exit 2
 iso() { unshare -m bash -c "mount -t tmpfs tmpfs /tmp && cd $WT && $1"; }
+TAGS=""
+if head -3 "$OUT/demo_test.go" | grep -q "go:build vectors"; then
+  TAGS="-tags vectors"
+  echo "replace github.com/blevesearch/go-faiss => $VERIF/fakefaiss" >> "$WT/go.mod"
+fi
 res_apply=fail; res_build=fail; res_tests=fail; demo_with=unknown; demo_without=unknown
 if git -C "$WT" apply --check "$OUT/patch.diff" 2>/dev/null; then
   res_apply=ok
   cp "$OUT/demo_test.go" "$WT/zz_demo_seed_test.go"
-  iso "go test -vet=off -count=1 -run 'Demo' . > $OUT/demo_without.log 2>&1" && demo_without=pass || demo_without=fail
+  iso "go test $TAGS -vet=off -count=1 -run 'Demo' . > $OUT/demo_without.log 2>&1" && demo_without=pass || demo_without=fail
   git -C "$WT" apply "$OUT/patch.diff"
   iso "go build ./... > $OUT/build.log 2>&1" && res_build=ok
-  iso "go test -vet=off -count=1 -run 'Demo' . > $OUT/demo_with.log 2>&1" && demo_with=pass || demo_with=fail
+  iso "go test $TAGS -vet=off -count=1 -run 'Demo' . > $OUT/demo_with.log 2>&1" && demo_with=pass || demo_with=fail
   rm -f "$WT/zz_demo_seed_test.go"
+  git -C "$WT" checkout -q -- go.mod 2>/dev/null
   iso "go test -vet=off -count=1 ./... > $OUT/tests.log 2>&1" && res_tests=ok
 fi
 git -C $REPO worktree remove --force "$WT"
